@@ -640,3 +640,32 @@ m('C10', 'point_to_dipole: electrodes swapped', ELEC,
 n('C10', '_dipole_vector: factor order', FIELDS,
   "                    vfield.fx[ix, iy+1, iz] += ry*ez*x_len",
   "                    vfield.fx[ix, iy+1, iz] += x_len*ez*ry")
+
+# ------------------------------------------------------------------- C15
+m('C15', 'interpolate_to_grid: log flag inverted', MODELS,
+  "'log': not self.map.name.startswith('L')", "'log': self.map.name.startswith('L')",
+  'C15.VA1')
+m('C15', 'maps.interpolate: 10** unguarded', MAPS,
+  "    if log:\n        values_x = 10**values_x", "    if True:\n        values_x = 10**values_x",
+  'C15.VA2')
+m('C15', 'interp_volume_average: normalisation removed', MAPS,
+  "    new_values /= new_vol", "    pass", 'C15.VA3')
+m('C15', 'interp_volume_average: reads the output index', MAPS,
+  "w_zy*w_x*values[ixi, iyi, izi]", "w_zy*w_x*values[ixo, iyi, izi]", 'C15.VA3')
+m('C15', '_volume_average_weights: weight from the cell centre', MAPS,
+  "            wx[ii] = xs[i+1]-xs[i]", "            wx[ii] = center-xs[i]", 'C15.VA4')
+
+# ------------------------------------------------------------------- C19
+m('C19', 'extract_1d: normalisation removed', MODELS,
+  "            pp /= pp.sum()\n", "", 'C19.L1')
+m('C19', 'layered: finite mask not applied to the weights', MP,
+  "            wgt = weights.loc[rkey, :].data[fi]", "            wgt = weights.loc[rkey, :].data",
+  'C19.L2')
+m('C19', '_empymod_fwd: aniso inverted', MP,
+  "np.sqrt(cond_h/cond_v)", "np.sqrt(cond_v/cond_h)", 'C19.L3')
+m('C19', 'layered: backward skipped for the horizontal conductivity', MP,
+  "        cond_h = map2cond(oned.property_x[0, 0, :])",
+  "        cond_h = oned.property_x[0, 0, :]", 'C19.L2')
+m('C19', '_get_points: source method uses the receiver', MP,
+  "        p1 = p0\n        method = 'midpoint'", "        p0 = p1\n        method = 'midpoint'",
+  'C19.L4')
